@@ -313,6 +313,10 @@ func c13(e *Env) {
 				rm := replyMsg(req)
 				// (a connection closed by the last frame of a batch says nothing about the earlier ones)
 				closed := !h.Connected() && (bi == len(batch)-1 || !lastClosing)
+				if rm != nil && expect != "error-or-close" && expect != "version-error" && req.Replies[0].Frame.Header.Version != primitive.ProtocolVersion(vbyte) {
+					w.Violate("c13-reply", "response-in-another-protocol-version", fmt.Sprintf("%s: the answer's header says %s", desc, req.Replies[0].Frame.Header.Version))
+					return
+				}
 				if rm == nil && lastClosing && bi < len(batch)-1 && !h.Connected() {
 					// the connection was closed on the offending last frame before the answer to this
 					// earlier one was written: a closed connection owes nothing more
